@@ -556,6 +556,12 @@ CLAIMED["C14"]["text"] += (" Round 8 (gape): descriptor ownership at sf_close wh
 CLAIMED["C15"]["text"] += (" Round 8 (gape): stage 3 also enumerates every fault point of foreign multi-block / multi-chunk headers (read workload) and of the rdwr workload through sf_read_raw / sf_write_raw (vlib/c15extra.py); the raw entry points are modelled over the oracle "
                             "(lean/SfModel/FaultsRaw.lean, byte-for-byte in stage 2) with write_raw_seek_failure_contained / read_raw_seek_failure_contained (lean/SfProps/C15RawRw.lean).")
 
+CLAIMED["C05"]["text"] += (" Round 9 (handleg): the GENERIC handle machine Sf.HandleG (lean/SfModel/HandleG.lean: Sf.Handle's step function with the container as a parameter; instances AIFF / CAF / W64 / AVR / IRCAM / PAF 8+16 / HTK and RAW / AU / WAV, "
+                            "lean/SfModel/HandleGInst.lean) -- whole histories (write / seek / read / header update / truncate / close / re-open r and rw) compared byte for byte incl. the store dumps (vlib/handleg.py, sfmodel handleg); "
+                            "handleG_refines_handle, HInv_preserved_generic, write_contract_generic, instances_lawful (lean/SfProps/C05HandleG.lean).")
+for _p in ("C06", "C07", "C08"):
+    CLAIMED[_p]["text"] += " Round 9 (handleg): generic handle machine campaign vlib/handleg.py (Sf.HandleG, ten container instances, store bytes compared) and lean/SfProps/C05HandleG.lean."
+
 
 # ---- round 9 (worker wbridge3a): crash points of block-codec writers; XI DPCM whole-file round trip (appended) ----
 _R9_WBRIDGE3A = (" Round 9 (write-side bridge, block codecs with crash points): SnapJob / SnapFacts / snap_session_accepted (SfProofs/AbsWriteBridgeBlock3.lean: BlockFacts + per crash point "
